@@ -332,7 +332,9 @@ class C17(common.Prop):
         out = {}
 
         def t_run():
-            args = [self.MaskedTensor(torch.tensor(pts[i].copy()), torch.tensor(valid[i].copy())) for i in range(nargs)]
+            lay = sum(case["shape"]) + len(case.get("tags") or [])
+            args = [self.MaskedTensor(common.vary_torch(torch.tensor(pts[i].copy()), lay + i), common.vary_torch(torch.tensor(valid[i].copy()), lay + i + 1))
+                    for i in range(nargs)]
             return self.t_mods[fn]()(*args).numpy()
         out["torch"] = self._guard(t_run)
 
